@@ -489,6 +489,7 @@ class Interp:
         if self.depth > 60:
             raise Unsupported('recursion depth')
         env.vars['__qualname__'] = q
+        env.vars['__fnnode__'] = node
         env.vars['__loopctr__'] = [0]
         try:
             self.run(node.body, env)
@@ -761,11 +762,26 @@ class Interp:
         except _Break:
             pass
 
+    def static_loop_ordinal(self, st, env):
+        """k-th `while` statement (source order) of the function being executed"""
+        if not env.has('__fnnode__'):
+            return None
+        fn = env.lookup('__fnnode__')
+        k = 0
+        for n in ast.walk(fn):
+            if isinstance(n, ast.While):
+                pass
+        whiles = sorted((n for n in ast.walk(fn) if isinstance(n, ast.While)), key=lambda n: (n.lineno, n.col_offset))
+        for k, n in enumerate(whiles):
+            if n is st:
+                return k
+        return None
+
     def ex_While(self, st, env):
-        ordinal = self.next_loop_ordinal(env)
-        spec = self.loop_specs.get((env.lookup('__qualname__'), ordinal)) if env.has('__qualname__') else None
+        k = self.static_loop_ordinal(st, env)
+        spec = self.loop_specs.get((env.lookup('__qualname__'), k)) if (k is not None and env.has('__qualname__')) else None
         if spec is not None:
-            return spec.run_while(self, st, env)
+            return spec.run_while(self, st, env, k)
         n = 0
         try:
             while self.truth(self.ev(st.test, env)):
@@ -1482,3 +1498,41 @@ def _ite_val(c, a, b):
     if not is_sym(c):
         return a if c else b
     return V.ite(c, a, b)
+
+
+class LoopSpec:
+    """inductive invariant for a `while` loop (keyed by function and the loop's source ordinal).
+
+    havoc(ctx, env): rebinds every variable the loop body assigns to a fresh symbolic value
+    invariant(ctx, env) -> formula over the current bindings
+    Obligations generated:  <name>.init  (holds on entry),  <name>.preserved  (from an arbitrary state with invariant and guard, one body
+    execution re-establishes it).  Afterwards execution continues from an arbitrary state satisfying invariant and not guard (partial correctness)."""
+    def __init__(self, name, havoc, invariant, executes_at_least_once=None, on_exit=None):
+        self.name, self.havoc, self.invariant = name, havoc, invariant
+        self.executes_at_least_once = executes_at_least_once
+        self.on_exit = on_exit            # callback(ctx, env): obligations about the state in which the loop is left
+
+    def run_while(self, it, st, env, k):
+        ctx = it.ctx
+        if st.orelse:
+            raise Unsupported('while/else with invariant')
+        ctx.prove(f'{self.name}.init', self.invariant(ctx, env, 'init'), kind='loop')
+        if self.executes_at_least_once:
+            g0 = it.ev(st.test, env)
+            ctx.prove(f'{self.name}.entered', V.zbool(g0) if is_sym(g0) else bool(g0), kind='loop')
+        with ctx.scope():
+            self.havoc(ctx, env, 'pre')
+            ctx.assume(self.invariant(ctx, env, 'pre'))
+            g = it.ev(st.test, env)
+            ctx.assume(V.zbool(g) if is_sym(g) else (z3.BoolVal(True) if it.truth(g) else z3.BoolVal(False)))
+            try:
+                it.run(st.body, env)
+            except (_Break, _Continue):
+                raise Unsupported('break/continue inside a loop with invariant')
+            ctx.prove(f'{self.name}.preserved', self.invariant(ctx, env, 'post'), kind='loop')
+        self.havoc(ctx, env, 'exit')
+        ctx.assume(self.invariant(ctx, env, 'exit'))
+        g = it.ev(st.test, env)
+        ctx.assume(V.not_(V.zbool(g)) if is_sym(g) else z3.BoolVal(not it.truth(g)))
+        if self.on_exit:
+            self.on_exit(ctx, env)
